@@ -99,6 +99,8 @@ def _main(a, VC):
         else:
             verdict = "CAUGHT" if caught else "missed"
         rec["verdict"] = verdict
+        # what the checks said the first time this change was run (before any strengthening) is kept
+        rec["first_verdict"] = prev.get("first_verdict") or prev.get("verdict") or verdict
         print(f"{sid:10s} {verdict}  demo(mod)={rec.get('demo_modified_exit')} "
               f"demo(orig)={rec.get('demo_unmodified_exit')}  " +
               " ".join(f"{p}:exit={c.get('exit')}" for p, c in rec["checks"].items()), flush=True)
